@@ -418,7 +418,8 @@ def _stalled(kind, nstalled=40, tls=False):
     else:
         server.max_children = 1000
     bad = []
-    parent = os.getpid()
+    marker = os.path.join(root, "..", "escaped-stalled-%d" % os.getpid())
+    parent = rig.guard_forked(server, marker)
     t = threading.Thread(target=lambda: server.serve_forever(poll_interval=0.02), daemon=True)
     t.start()
     silent = []
@@ -473,6 +474,9 @@ def _stalled(kind, nstalled=40, tls=False):
             os._exit(0)
         server.shutdown()
         t.join(5)
+        if os.path.exists(marker):
+            bad.append(("worker-escaped", "a forked worker came back out of process_request() into the accept loop instead of ending"))
+            os.unlink(marker)
         if kind == "fork":
             deadline = time.time() + 5
             while time.time() < deadline and server.active_children:
